@@ -296,7 +296,7 @@ def layouts_untouched_bounded_instance():
     from pb_bss.math import solve as ms
 
     FN = ['psd', 'gev', 'gev-eig', 'pca', 'mvdr', 'souden', 'wmwf', 'lcmv', 'ban', 'phase', 'apply', 'bf-gev', 'bf-rank1', 'masks', 'si_sdr', 'sxr', 'stable_solve',
-          'vuv', 'biased', 'from_cov']
+          'vuv', 'biased', 'from_cov', 'set_snr', 'bingham', 'set_snr', 'bingham']
 
     def make(B):
         return {'fn': B.choose('fn', FN), 'layout': B.choose('layout', ['C', 'F', 'H', 'strided']), 'ro': B.choose('ro', [False, True]),
@@ -328,12 +328,20 @@ def layouts_untouched_bounded_instance():
         ref, est = lay(rng.normal(size=(K, 40)), inp['layout']), lay(rng.normal(size=(K, 40)), inp['layout'])
         img, noise_img = lay(rng.normal(size=(K, 2, 40)), inp['layout']), lay(rng.normal(size=(2, 40)), inp['layout'])
         bsig = lay(np.abs(cn(2, 4, 257)) , inp['layout'])
-        args = dict(tgt=tgt, noi=noi, atf=atf, w=w, obs=obs, mask=mask, sig=sig, ref=ref, est=est, img=img, noise_img=noise_img, bsig=bsig)
+        # a measured SNR handed back to set_snr as an array; the stored parameters of a hand-built Bingham model (eigenvalues not sorted)
+        snr_x, snr_n = lay(rng.normal(size=(2, 50)), inp['layout']), lay(rng.normal(size=(2, 50)), inp['layout'])
+        cur = lay(np.asarray(sx.get_snr(snr_x, snr_n, axis=-1, keepdims=True), dtype=float), inp['layout'])
+        Q = np.linalg.qr(cn(2, D, D))[0]
+        bvec, bval = lay(Q, inp['layout']), lay(np.array([[0.9, 0.1, 0.5][:D], [-3.0, 0.0, -7.0][:D]]), inp['layout'])
+        bpts = lay(cn(2, 5, D), inp['layout'])
+        args = dict(tgt=tgt, noi=noi, atf=atf, w=w, obs=obs, mask=mask, sig=sig, ref=ref, est=est, img=img, noise_img=noise_img, bsig=bsig,
+                    snr_x=snr_x, snr_n=snr_n, cur=cur, bvec=bvec, bval=bval, bpts=bpts)
         if inp['ro']:
             for a in args.values():
                 a.flags.writeable = False
         before = {k: np.array(v, copy=True) for k, v in args.items()}
         fn = inp['fn']
+        state = {}
 
         def run():
             if fn == 'psd':
@@ -369,6 +377,17 @@ def layouts_untouched_bounded_instance():
             if fn == 'sxr':
                 o = sx.input_sxr(img, noise_img)
                 return [o.sdr, o.sir, o.snr]
+            if fn == 'set_snr':
+                x2, n2 = sx.set_snr(snr_x, snr_n, 10.0, current_snr=cur, axis=-1, inplace=False)
+                return [np.asarray(n2), np.asarray(sx.get_snr(x2, n2, axis=-1))]
+            if fn == 'bingham':
+                from pb_bss.distribution.complex_bingham import ComplexBingham
+                if 'mdl' not in state:         # one model object for both calls: evaluating it must not change it
+                    state['mdl'] = ComplexBingham(covariance_eigenvectors=bvec, covariance_eigenvalues=bval)
+                    state['stored'] = np.array(state['mdl'].covariance_eigenvalues, copy=True)
+                mdl = state['mdl']
+                z = bpts / np.linalg.norm(bpts, axis=-1, keepdims=True)
+                return [np.asarray(mdl.log_pdf(z)), np.asarray(mdl.covariance_eigenvalues) - state['stored']]
             if fn == 'vuv':
                 return list(mm.voiced_unvoiced_split_characteristic(257))
             if fn == 'biased':
